@@ -307,6 +307,34 @@ func (c *Ctx) fold(s *vs.Summary) {
 	}
 }
 
+// FoldExec folds one batch execution (RunBatch) into the counters and reports its violations.
+func (c *Ctx) FoldExec(r *vs.ExecResult) {
+	c.evals++
+	c.states += int64(r.Steps)
+	c.transitions += int64(r.Steps)
+	c.traces++
+	if r.EndState != "" {
+		h := sha256.Sum256([]byte(r.EndState))
+		c.distinct[hex.EncodeToString(h[:8])] = struct{}{}
+	}
+	if r.HarnessE != "" {
+		c.harnessErr = append(c.harnessErr, r.Scenario+": "+r.HarnessE)
+		return
+	}
+	add := func(kind, m string) {
+		c.e1Violation(r.Scenario, vs.Violation{Kind: kind, Msg: m, Devs: r.Devs, Sig: kind + ":" + vs.NormalizeMsg(m)})
+	}
+	for _, m := range r.Fails {
+		add("fail", m)
+	}
+	for _, m := range r.Races {
+		add("race", m)
+	}
+	for _, m := range r.Panics {
+		add("panic", m)
+	}
+}
+
 func (c *Ctx) e1Violation(scn string, v vs.Violation) {
 	sig := scn + "|" + v.Sig
 	for _, old := range c.viols {
